@@ -225,6 +225,19 @@ func (e *Exec) nondet(name string, s Sort, goTy string) *Term {
 	return t
 }
 
+func sliceOfInt(e *Exec, st *State, v Value) Value {
+	id := e.newObj(st, &Struct{[]Value{v}})
+	return Slice{Arr: id, Len: 1, Cap: 1}
+}
+
+// nondetNameRaw: name[idx,...] without thread prefix
+func nondetNameRaw(e *Exec, st *State, args []Value) string {
+	save := e.conc
+	e.conc = nil
+	defer func() { e.conc = save }()
+	return nondetName(e, st, args)
+}
+
 func nondetName(e *Exec, st *State, args []Value) string {
 	n := args[0].(*Term)
 	if !n.IsConst() {
@@ -244,9 +257,6 @@ func nondetName(e *Exec, st *State, args []Value) string {
 			}
 			name += "[" + strings.Join(parts, ",") + "]"
 		}
-	}
-	if e.conc != nil && e.conc.cur != nil && e.conc.cur.id != 0 {
-		name = fmt.Sprintf("T%d.%s", e.conc.cur.id, name)
 	}
 	return name
 }
@@ -464,6 +474,55 @@ func initStubs() {
 			fail("ghost record %d out of range", i)
 		}
 		return ret(st, BVConst(uint64(len(l.F[i].(*Struct).F)), 64))
+	}
+	evKey := func(e *Exec, st *State, args []Value) string {
+		return nondetNameRaw(e, st, args)
+	}
+	// Event(name, idx...): ghost event in the current thread
+	stubTable[zzp+"Event"] = func(e *Exec, st *State, fn *Func, args []Value, site string) []Outcome {
+		if e.conc == nil {
+			return ret(st)
+		}
+		key := evKey(e, st, args)
+		if old, dup := e.conc.named[key]; dup {
+			// occurrences on different paths of one thread are mutually exclusive; on the same path it is a harness bug
+			for _, x := range st.Thread.events {
+				if x == old {
+					fail("ghost event %s emitted twice on one path", key)
+				}
+				for _, a := range old.Aux {
+					if x == a {
+						fail("ghost event %s emitted twice on one path", key)
+					}
+				}
+			}
+			if old.Thread != st.Thread.rec.id {
+				fail("ghost event %s emitted by two threads", key)
+			}
+		}
+		ev := e.conc.emit(st, "ghost", "", site)
+		ev.Name = key
+		if old, dup := e.conc.named[key]; dup {
+			// mutually exclusive occurrences: tie them together through an alias event list
+			ev.Aux = append(old.Aux, old)
+		}
+		e.conc.named[key] = ev
+		return ret(st)
+	}
+	// Before(nameA, nameB, idxA, idxB): clock(A) < clock(B)
+	stubTable[zzp+"Before"] = func(e *Exec, st *State, fn *Func, args []Value, site string) []Outcome {
+		if e.conc == nil {
+			fail("Before outside concurrent mode")
+		}
+		a := nondetNameRaw(e, st, []Value{args[0], sliceOfInt(e, st, args[2])})
+		b := nondetNameRaw(e, st, []Value{args[1], sliceOfInt(e, st, args[3])})
+		return ret(st, App("<", BoolSort, e.conc.placeholder("clk", a, IntSort), e.conc.placeholder("clk", b, IntSort)))
+	}
+	stubTable[zzp+"Happened"] = func(e *Exec, st *State, fn *Func, args []Value, site string) []Outcome {
+		if e.conc == nil {
+			fail("Happened outside concurrent mode")
+		}
+		return ret(st, e.conc.placeholder("exec", evKey(e, st, args), BoolSort))
 	}
 	stubTable[zzp+"Symbolic"] = func(e *Exec, st *State, fn *Func, args []Value, site string) []Outcome {
 		return ret(st, True)
@@ -807,4 +866,9 @@ func initPromStubs() {
 		st.Heap[s.Arr] = &Struct{f}
 		return ret(st)
 	}
+}
+
+// stubPanicValue: the value a stubbed library function panics with (an error)
+func (e *Exec) stubPanicValue(st *State, msg string) Value {
+	return e.stubError(st, StrConst(msg), nil)
 }
